@@ -1998,3 +1998,13 @@ TABLE["C09"] += [
     B("submodule-memory-per-namespace-object", {"W6"},
       (PW, "                    and module_var not in self._submodule_vars:\n                self._submodule_vars.append(module_var)", "                    and id(namespace) not in self._submodule_vars:\n                self._submodule_vars.append(id(namespace))")),
 ]
+TABLE["C02"] += [
+    B("scoped-parameter-must-be-the-whole-qualifier", {"S14"},
+      (TI + "helpers.py", "    for idx, template in enumerate(template_typenames):\n        if \"::\" in str_arg_typename and \\\n            template in str_arg_typename.split(\"::\"):", "    scope, _, _ = str_arg_typename.rpartition(\"::\")\n    for idx, template in enumerate(template_typenames):\n        if template == scope:")),
+    B("qualified-template-arguments-not-descended-into", {"S14"},
+      (TI + "helpers.py", "            else:\n                instantiate_template_args(instantiation)", "            elif not instantiation.namespaces:\n                instantiate_template_args(instantiation)")),
+]
+TABLE["C14"] += [
+    B("output-left-alone-when-newer-than-the-source", {"R1"},
+      (PW, "        main_module = sources[0]\n", "        main_module = sources[0]\n        out_, src_ = Path(main_module_name), Path(main_module)\n        if out_.is_file() and src_.stat().st_mtime_ns < out_.stat().st_mtime_ns:\n            return\n")),
+]
